@@ -7,6 +7,7 @@
   Structural statements hold for every number algebra; order statements are over ℝ.
   Only property theorems live here; helper lemmas are in `Optyx/Lemmas/ApiConstraint.lean`.
 -/
+import Optyx.Props.Glue
 import Optyx.Lemmas.ApiConstraint
 import Optyx.Drive.Api
 
